@@ -220,10 +220,13 @@ func runProperty(e *sym.Engine, spec *propSpec, tier string, seed int, workers i
 	// second attempt per candidate: the same model with the user's data amplified by
 	// incompressible padding (size-dependent behaviour the string solver's small
 	// witnesses do not reach natively; see the length abstraction in term.go)
-	for i := 0; i < nViol; i++ {
-		c := sym.MakeCase(cases[i].Harness, tier, spec.ID, cands[i].v.Model)
-		sym.SetAmplify(&c)
-		cases = append(cases, c)
+	// ... and a third one with highly compressible padding (mode 2)
+	for mode := 1; mode <= 2; mode++ {
+		for i := 0; i < nViol; i++ {
+			c := sym.MakeCase(cases[i].Harness, tier, spec.ID, cands[i].v.Model)
+			sym.SetAmplify(&c, mode)
+			cases = append(cases, c)
+		}
 	}
 	type sampleRef struct {
 		harness string
@@ -263,7 +266,7 @@ func runProperty(e *sym.Engine, spec *propSpec, tier string, seed int, workers i
 		for i, c := range cands {
 			r := results[i]
 			confirmed := false
-			for _, attempt := range []int{i, nViol + i} {
+			for _, attempt := range []int{i, nViol + i, 2*nViol + i} {
 				ra := results[attempt]
 				hit := false
 				for _, f := range ra.Failed {
@@ -343,7 +346,7 @@ func runProperty(e *sym.Engine, spec *propSpec, tier string, seed int, workers i
 	var sampleOut []interface{}
 	if results != nil {
 		for i, sr := range srefs {
-			r := results[2*nViol+i]
+			r := results[3*nViol+i]
 			if r.Invalid == "" && r.Panic == "" && strings.Join(r.Outcomes, ",") == strings.Join(sr.s.Outcomes, ",") {
 				validated++
 			} else {
